@@ -110,25 +110,43 @@ def showFixed (ms : List Member) : String :=
 def showSvc (ms : List Member) (sv : List (String × Item)) : String :=
   join ";" ((probes ms).filterMap fun k => (sv.lookup k).map fun it => k ++ "=" ++ showItem it)
 
-def showOutcome (o : Outcome) : String :=
+/-- `c = stopped`: the completion of a request that WAS sent is not observed (`cb=~`): the reply goes to a
+service whose loop no longer runs — delivery and completion of a sent request are C01/C09's business -/
+def showOutcomeIn (c : Caller) (o : Outcome) : String :=
   let s := if o.sent.isEmpty then "-" else
     join "," (o.sent.map fun x => showPid (some x.target) ++ "!" ++ x.api ++ "!" ++ (if x.isReq then "R" else "N"))
   let cbs := o.cbs.map (fun _ => "noservice") ++ (if o.pending && !o.sent.isEmpty then ["ok"] else [])
-  "sent=" ++ s ++ " cb=" ++ (if cbs.isEmpty then "-" else join "," cbs)
+  if c == .stopped && !o.sent.isEmpty then "sent=" ++ s ++ " cb=~"
+  else "sent=" ++ s ++ " cb=" ++ (if cbs.isEmpty then "-" else join "," cbs)
+
+def showOutcome (o : Outcome) : String := showOutcomeIn .running o
+
+def callerOf (ws : List String) : Caller := if kvS ws "ctx" == "stopped" then .stopped else .running
 
 /-! ### model / accept -/
 
 structure DSt where
-  rules : Rules := ⟨[], true⟩
+  rules : Rules := ⟨[], true, none⟩
   dir : Dir := emptyDir
+  armed : Option (List Member) := none   -- `midview`: installed while the route function of the NEXT call is parked
 
-/-- ops other than `view` -/
-def stepCall (s : DSt) (ws : List String) : DSt × String :=
+/-- the service type a call routes for (`none`: the op does not route) -/
+def routedType (ws : List String) : Option String :=
+  match ws.head? with
+  | some "req" | some "ntf" => some (splitClientRoute (kvS ws "r")).1
+  | some "pid" | some "route" => some (kvS ws "type")
+  | _ => none
+
+/-- ops other than `view` and `midview` -/
+def stepCall0 (s : DSt) (ws : List String) : DSt × String :=
   let nocb := kvS ws "nocb" == "1"
   match ws.head? with
   | some "reset" =>
-    let hd := s.rules.hasDefault && !(kvS ws "default" == "0")
-    ({ rules := ⟨[], hd⟩, dir := emptyDir }, if hd then "ok default=1" else "ok default=0")
+    -- `default=0`: SetDefaultRoute(nil); otherwise the default function (built-in or replaced) stays as it is
+    let drop := kvS ws "default" == "0"
+    let hd := s.rules.hasDefault && !drop
+    ({ rules := ⟨[], hd, if drop then none else s.rules.custom⟩, dir := emptyDir }, if hd then "ok default=1" else "ok default=0")
+  | some "setdef" => ({ s with rules := s.rules.setDefault (parseBeh (kvS ws "beh")) }, "ok")
   | some "rule" => ({ s with rules := s.rules.register (kvS ws "type") (parseBeh (kvS ws "beh")) }, "ok")
   | some "route" => (s, "name=" ++ route s.rules s.dir (kvS ws "type") (parseParam ws))
   | some "pid" => (s, "pid=" ++ showPid (routePID s.rules s.dir (kvS ws "type") (parseParam ws)))
@@ -142,18 +160,29 @@ def stepCall (s : DSt) (ws : List String) : DSt × String :=
   | some "split" =>
     let x := splitClientRoute (kvS ws "r")
     (s, "t=" ++ x.1 ++ " a=" ++ x.2.1 ++ " m=" ++ x.2.2)
-  | some "req" => (s, showOutcome (request s.rules s.dir (kvS ws "r") (parseParam ws) (!nocb)))
+  | some "req" => (s, showOutcomeIn (callerOf ws) (requestIn (callerOf ws) s.rules s.dir (kvS ws "r") (parseParam ws) (!nocb)))
   | some "ntf" => (s, showOutcome (notify s.rules s.dir (kvS ws "r") (parseParam ws)))
-  | some "qs" => (s, showOutcome (helper s.dir (kvS ws "front") "sys.querysession" (!nocb)))
-  | some "kick" => (s, showOutcome (helper s.dir (kvS ws "front") "sys.kick" (!nocb)))
+  | some "qs" => (s, showOutcomeIn (callerOf ws) (helperIn (callerOf ws) s.dir (kvS ws "front") "sys.querysession" (!nocb)))
+  | some "kick" => (s, showOutcomeIn (callerOf ws) (helperIn (callerOf ws) s.dir (kvS ws "front") "sys.kick" (!nocb)))
   | _ => (s, "bad-op")
+
+/-- `midview m=…` arms a view; the NEXT op consumes it: if that op routes through a function that reads its
+parameter (`straddles`), the view update lands while the function runs, i.e. between `Route`'s start and the
+name lookup — `requestTorn`, which for such functions is the call in the new view
+(`straddling_call_served_from_new_view`); any other op just drops the armed view. -/
+def stepCall (s : DSt) (ws : List String) : DSt × String :=
+  if ws.head? == some "midview" then ({ s with armed := some (parseMembers ws) }, "ok") else
+  let s1 : DSt := match s.armed, routedType ws with
+    | some ms, some t => if straddles s.rules t (parseParam ws) then { s with dir := mkDir ms } else s
+    | _, _ => s
+  stepCall0 { s1 with armed := none } ws
 
 def stepModel (s : DSt) (line : String) : DSt × String :=
   let ws := words line
   if ws.head? == some "view" then
     let ms := parseMembers ws
     let d := mkDir ms
-    ({ s with dir := d }, showFixed ms ++ " svc=" ++ showSvc ms d.services)
+    ({ s with dir := d, armed := none }, showFixed ms ++ " svc=" ++ showSvc ms d.services)
   else stepCall s ws
 
 /-- the observed name map of a `view` observation, checked and turned into items -/
@@ -182,11 +211,11 @@ def stepAccept (s : DSt) (line : String) : DSt × String :=
       let ms := parseMembers ws
       match obs.splitOn " svc=" with
       | [fixed, svcObs] =>
-        if fixed != showFixed ms then ({ s with dir := mkDir ms }, "REJECT model=" ++ showFixed ms)
+        if fixed != showFixed ms then ({ s with dir := mkDir ms, armed := none }, "REJECT model=" ++ showFixed ms)
         else match pinServices ms svcObs with
-          | .ok sv => ({ s with dir := ⟨ms, sv⟩ }, "ok")
-          | .error e => ({ s with dir := mkDir ms }, "REJECT " ++ e)
-      | _ => ({ s with dir := mkDir ms }, "REJECT unparsable view observation; model=" ++ (stepModel s op).2)
+          | .ok sv => ({ s with dir := ⟨ms, sv⟩, armed := none }, "ok")
+          | .error e => ({ s with dir := mkDir ms, armed := none }, "REJECT " ++ e)
+      | _ => ({ s with dir := mkDir ms, armed := none }, "REJECT unparsable view observation; model=" ++ (stepModel s op).2)
     else
       let (s', m) := stepCall s ws
       (s', if m == obs then "ok" else "REJECT model=" ++ m)
@@ -198,6 +227,8 @@ structure SSt where
   ms : List Member := []
   rules : List (String × Option Beh) := []     -- newest first
   hasDefault : Bool := true
+  custom : Option Beh := none                  -- `SetDefaultRoute(f)` with another function: the rule of every type without one
+  armed : Option (List Member) := none         -- `midview`: the view update that lands inside the next call's route function
 
 /-- a well-formed full service name `type.name` -/
 def wf (s : String) : Option (String × String) :=
@@ -233,6 +264,18 @@ def sentinelNamed (ms : List Member) : Bool :=
 /-- switch for the lead's decision (c): an explicit instance name on a malformed route is out of scope -/
 def flagExplicitOnMalformed : Bool := false
 
+/-- the function that rules type `t`: the registered one, else a replaced default function -/
+def ruling (s : SSt) (t : String) : Option Beh :=
+  match s.rules.lookup t with
+  | some (some b) => some b
+  | _ => s.custom
+
+/-- the call runs a route function that reads its parameter: a view armed by `midview` lands before the lookup -/
+def fires (s : SSt) (t : String) (p : Param) : Bool :=
+  match p.viaFunc, ruling s t with
+  | some fp, some b => b.reads fp
+  | _, _ => false
+
 def expect (s : SSt) (t : String) (p : Param) (routeOk : Bool) : Expect :=
   -- `get k`: none = the function cannot read the parameter (nil / nil pointer), some none = key absent
   -- (an EMPTY or nil key map is a readable parameter with every key absent); `untypedNil`: p == nil
@@ -242,14 +285,15 @@ def expect (s : SSt) (t : String) (p : Param) (routeOk : Bool) : Expect :=
       | some (some (.str v)) => .name v
       | some none => .name dflt          -- `Get` hands the function's default back ("" = no instance)
       | _ => .fail
-    match s.rules.lookup t with
-    | some (some (.const n)) => .name n
-    | some (some (.key k)) | some (some (.nest k _ _)) => byKey k ""   -- a nesting function answers from the OUTER parameter
-    | some (some (.keyd k d)) => byKey k d
-    | some (some (.nilor nn k)) => if untypedNil then .name nn else byKey k ""
-    | some (some .empty) => .fail
-    | some (some .panic) => .fail
-    | some none | none => if s.hasDefault then .anyWorking t else .fail
+    -- the function that rules the type: the registered one, else a replaced default function
+    match ruling s t with
+    | some (.const n) => .name n
+    | some (.key k) | some (.nest k _ _) => byKey k ""   -- a nesting function answers from the OUTER parameter
+    | some (.keyd k d) => byKey k d
+    | some (.nilor nn k) => if untypedNil then .name nn else byKey k ""
+    | some .empty => .fail
+    | some .panic => .fail
+    | none => if s.hasDefault then .anyWorking t else .fail
   let lastKey (l : KVs) (k : String) : Option Val := (l.reverse.find? (fun e => e.1 == k)).map (·.2)
   match p with
   | .str n => if routeOk || flagExplicitOnMalformed then .name n else .skip
@@ -284,6 +328,9 @@ def viol (sig why op obs : String) : String := s!"VIOLATION C07/{sig} {why} | op
 def checkCall (op obs : String) (al : List String) (api kind : String) (wantCb : Bool) (helper : Bool) : String :=
   let sent := parseSent obs
   let cb := kvS (words obs) "cb"
+  -- issued by a service whose loop has stopped: the completion of a SENT request is not observed
+  -- (C01/C09); a REFUSED one must still be completed, by the call itself
+  let sentUnobserved := kvS (words op) "ctx" == "stopped"
   if al.isEmpty then
     if !sent.isEmpty then viol "sent-despite-no-instance" "the rule yields no known instance but a message was sent" op obs
     else if wantCb && cb != "noservice" then
@@ -299,6 +346,7 @@ def checkCall (op obs : String) (al : List String) (api kind : String) (wantCb :
     | [(p, a, k)] =>
       if !al.contains p then viol "wrong-target" s!"sent to {p}, allowed {al}" op obs
       else if a != api || k != kind then viol "wrong-api-route" s!"forwarded as {a}/{k}, expected {api}/{kind}" op obs
+      else if sentUnobserved then "ok"
       else if wantCb && cb != "ok" then viol "callback-missing-or-duplicated" "one reply, so exactly one completion" op obs
       else if !wantCb && cb != "-" then viol "callback-missing-or-duplicated" "a completion without a callback" op obs
       else "ok"
@@ -309,11 +357,25 @@ def specLine (s : SSt) (line : String) : SSt × String :=
   | [op, obs] =>
     let ws := words op
     let nocb := kvS ws "nocb" == "1"
+    -- a call that straddles a view update is judged against the view in force at the name lookup: the NEW one
+    let s : SSt := match s.armed with
+      | none => s
+      | some ms =>
+        if ws.head? == some "midview" then s
+        else match routedType ws with
+          | some t => if fires s t (parseParam ws) then { s with ms := ms, armed := none } else { s with armed := none }
+          | none => { s with armed := none }
     if (obs.splitOn "panic").length > 1 || (obs.splitOn "no-observation").length > 1 then
       (s, viol "panic" "the call crashed" op obs)
+    else if obs == "blocked" then
+      (s, viol "blocked" "the call never returned (real-time watchdog): neither sent nor refused, and everything behind it hangs" op obs)
     else match ws.head? with
-    | some "reset" => ({ ms := [], rules := [], hasDefault := s.hasDefault && !(kvS ws "default" == "0") }, "ok")
+    | some "reset" =>
+      let drop := kvS ws "default" == "0"
+      ({ ms := [], rules := [], hasDefault := s.hasDefault && !drop, custom := if drop then none else s.custom }, "ok")
+    | some "setdef" => ({ s with hasDefault := false, custom := parseBeh (kvS ws "beh") }, "ok")
     | some "view" => ({ s with ms := parseMembers ws }, "ok")
+    | some "midview" => ({ s with armed := some (parseMembers ws) }, "ok")
     | some "rule" => ({ s with rules := (kvS ws "type", parseBeh (kvS ws "beh")) :: s.rules }, "ok")
     | some "req" | some "ntf" =>
       let isReq := ws.head? == some "req"
